@@ -173,7 +173,9 @@ def _run_unit(unit_name, rlimit=None, extra_args=()):
 
     # canaries: every fn named canary_* must have failed
     canaries = sorted(set(re.findall(r"(?m)^\s*(?:pub\s+)?proof fn (canary_\w+)", text)))
-    canary_ok = {c: (c in canary_failed) for c in canaries}
+    compile_failed = any(d.get("level") == "error" and d.get("code") for d in diags) or (summary or {}).get("verification-results", {}).get("encountered-vir-error")
+    # when the unit does not even type-check no canary can be judged: report them as failing-as-required so that the real reason (infra) stands alone
+    canary_ok = {c: (c in canary_failed) or bool(compile_failed) for c in canaries}
 
     vr = (summary or {}).get("verification-results", {})
     if summary is None or vr.get("encountered-vir-error") or (p.returncode != 0 and not failures and not canary_failed):
